@@ -731,6 +731,9 @@ func (r *Renderer) renderTexts(w util.BufWriter, source []byte, n ast.Node) {
 			} else {
 				_, _ = r.renderText(w, source, t, true)
 			}
+		} else if a, ok := c.(*ast.AutoLink); ok {
+			// the plain string content of an autolink is its label
+			_, _ = w.Write(util.EscapeHTML(a.Label(source)))
 		} else {
 			r.renderTexts(w, source, c)
 		}
